@@ -34,9 +34,10 @@ META = {
                    "leaves pack-names, upload/ and the visible keys unchanged for every insertion sequence; "
                    "suspend+reopen+resume+commit = commit for every group built on a fresh object (2a and knit), guarded otherwise; a refused commit "
                    "changes nothing on disk; an accepted commit yields compression-closed (knit) / inventory-chk-text "
-                   "complete (2a) content. Three statements are refuted in the model and reproduce on the real code "
-                   "(findings C06-knit-stale-missing-parents, C06-resume-again-on-same-object; "
-                   "C06-knit-resume-forgets-missing-parents was repaired by /repo 3775d0a and is now a theorem). Pack file "
+                   "complete (2a) content; a faulting abort (deletes on upload/ fail) of any group leaves nothing visible. "
+                   "Two statements stay refuted in the model and reproduce on the real code (finding "
+                   "C06-knit-stale-missing-parents); the findings repaired by /repo 3775d0a and 8028393 are now theorems "
+                   "and regression inputs. Pack file "
                    "formats, indices, autopack and the Rust knit/groupcompress code are covered only by the "
                    "correspondence run."),
     "level_note": ("Trusted: Coq kernel, vm_compute, the hand model's correspondence (bounded sampling of scripts), the "
@@ -89,7 +90,6 @@ class Sim:
         self.listed, self.upload = [], []
         self.wg = None           # [new, res]
         self.mcp, self.newrevs, self.broken = [], [], False
-        self.resident = []
 
     def visible(self):
         return [k for p in self.listed for k in p]
@@ -171,13 +171,11 @@ class Sim:
                 if not (isinstance(t, (list, tuple)) and tuple(t) in self.upload):
                     self.upload = [n for n in self.upload if n not in acc]
                     self.newrevs = []
-                    self.resident += acc
                     return "UnresumableWriteGroup"
-                if tuple(t) in self.resident or tuple(t) in acc:
+                if tuple(t) in acc:
                     self.broken = True
                     return "AssertionError"
                 acc.append(tuple(t))
-            self.resident += acc
             self.wg = [[], acc]
             v = self.view()
             for k in [k for p in acc for k in p]:   # scan_unvalidated_index of all four indices
@@ -200,25 +198,21 @@ class Sim:
                 return "BzrCheckError:finish"
             self.listed += ([tuple(new)] if new else []) + list(res)
             self.upload = [n for n in self.upload if n not in res]
-            self.resident = [n for n in self.resident if n not in res]
             self.wg, self.newrevs = None, []
             return "ok"
         if o == "abortf":
             if not self.wg:
                 return "BzrError"
-            r = "ok" if op[1] else "NoSuchFile"
-            if self.wg[1]:
-                self.broken = True
-                return r
+            # all clean-up runs although no file could be deleted: resumed packs stay suspended in upload/
             self.wg, self.newrevs = None, []
-            return r
+            return "ok" if op[1] else "NoSuchFile"
         if o == "suspendf":
             self.broken = True
             return "NoSuchFile"
         if o == "reopen":
             if self.wg:
                 return "BzrError"
-            self.mcp, self.newrevs, self.resident = [], [], []
+            self.mcp, self.newrevs = [], []
             return "ok"
         raise ValueError(op)
 
@@ -713,10 +707,8 @@ def oracle(inp, obs):
 
 def _sim_facts(ops, fmt):
     s = Sim(fmt)
-    lost = stale = asserted = faultres = False
+    lost = stale = False
     for op in ops:
-        if op[0] == "abortf" and s.wg and s.wg[1] and not s.broken:
-            faultres = True
         if op[0] == "commit" and s.wg and not s.broken:
             tm = s.true_missing()
             if tm and not s.mcp:
@@ -725,19 +717,14 @@ def _sim_facts(ops, fmt):
                 stale = True
         if op[0] in ("ins", "suspend", "suspendf") and not s.wg:
             break
-        if s.step(op) == "AssertionError":
-            asserted = True
-    return lost, stale, asserted, faultres
+        s.step(op)
+    return lost, stale
 
 
 def finding_matches(fid, inp, obs, why):
-    facts = [_sim_facts(inp[w], inp["fmt"]) for w in ("ops", "twin") if inp.get(w) is not None]
-    if fid == "C06-resume-again-on-same-object":
-        return any(f[2] for f in facts)
-    if fid == "C06-abort-fault-skips-resumed-packs":
-        return any(f[3] for f in facts)
     if inp["fmt"] != "knit":
         return False
+    facts = [_sim_facts(inp[w], inp["fmt"]) for w in ("ops", "twin") if inp.get(w) is not None]
     if fid == "C06-knit-stale-missing-parents":
         return any(f[1] for f in facts)
     return False
@@ -770,7 +757,7 @@ def _gen_ops(rng, fmt, n, sim=None, allow_end=True):
         if sim.broken:
             # the model stops here; keep driving the real object so the oracle sees what leaks
             # (after the resume AssertionError the object cannot even start a write group: stop)
-            if last[0] == "BzrCheckError:finish" or ops[-1][0] in ("abortf", "suspendf"):
+            if last[0] == "BzrCheckError:finish" or ops[-1][0] == "suspendf":
                 for op in (["abort"], ["start"], ["ins", rng.choice([41, 42, 51])], ["commit"]):
                     ops.append(op)
             break
@@ -785,6 +772,8 @@ def _gen_ops(rng, fmt, n, sim=None, allow_end=True):
                     toks.insert(rng.randint(0, len(toks)), rng.choice(["malformed", "ghost", "trailing"]))
                 elif y < 0.2 and used_names:
                     toks.append(list(rng.choice(sorted(used_names))))
+                if len({tuple(t) if isinstance(t, list) else t for t in toks}) != len(toks):
+                    continue      # a token repeated in one list is a malformed request (see notes: limits)
                 emit(["resume", toks])
             elif x < 0.90:
                 emit(["reopen"])
@@ -827,24 +816,11 @@ def _gen_ops(rng, fmt, n, sim=None, allow_end=True):
                 used_names.update(tuple(t) for t in r)
             elif y < 0.77:
                 emit(["suspendf"])
-            elif y < 0.88 and (not sim.wg[1] or _listed("C06-abort-fault-skips-resumed-packs")):
+            elif y < 0.88:
                 emit(["abortf", rng.random() < 0.6])
             else:
                 emit(["abort"])
     return ops, sim
-
-
-def _listed(fid):
-    """A finding's witnesses are generated only once the maintainer has listed it (any status) in
-    known_findings.json -- until then the check would print a VIOLATION for it on every run."""
-    if fid not in _state.setdefault("listed", {}):
-        import json
-        try:
-            data = json.load(open(os.path.join(os.path.dirname(__file__), "..", "..", "known_findings.json")))
-            _state["listed"][fid] = any(e.get("id") == fid for e in data.get("findings", []))
-        except Exception:
-            _state["listed"][fid] = False
-    return _state["listed"][fid]
 
 
 def _gen_chain(rng, fmt):
@@ -933,11 +909,13 @@ def _twin_abort(rng, fmt):
 
 def corpus():
     k = "knit"
-    extra = []
-    if _listed("C06-abort-fault-skips-resumed-packs"):
-        extra.append({"fmt": "2a", "ops": [["start"], ["ins", 51], ["suspend"], ["resume", [[51]]], ["ins", 41],
-                                           ["abortf", True], ["abort"], ["start"], ["ins", 52], ["commit"]], "twin": None})
-    return extra + [
+    return [
+        # repaired by /repo 8028393 (was finding C06-abort-fault-skips-resumed-packs): a faulting abort of a RESUMED
+        # group drops the resumed packs from the object; the next commit publishes only its own content
+        {"fmt": "2a", "ops": [["start"], ["ins", 51], ["suspend"], ["resume", [[51]]], ["ins", 41], ["abortf", True],
+                              ["start"], ["ins", 52], ["commit"], ["resume", [[51]]], ["commit"]], "twin": None},
+        {"fmt": k, "ops": [["start"], ["ins", 51], ["suspend"], ["resume", [[51]]], ["ins", 41], ["abortf", False],
+                           ["start"], ["ins", 52], ["commit"]], "twin": None},
         # repaired by /repo 3775d0a (was finding C06-knit-resume-forgets-missing-parents): the resumed commit must be
         # a clean refusal, the group stays usable, nothing of it leaks; reverting the repair fails these two cases
         {"fmt": k, "ops": [["start"], ["ins", 43], ["suspend"], ["reopen"], ["resume", [[43]]], ["ins", 42], ["commit"],
@@ -947,11 +925,14 @@ def corpus():
         # finding C06-knit-stale-missing-parents: an aborted group makes the next, valid commit fail
         {"fmt": k, "ops": [["start"], ["ins", 43], ["abort"], ["start"], ["ins", 42], ["commit"]],
          "twin": [["start"], ["ins", 42], ["commit"]], "tail": 3, "twin_kind": "aborted group"},
-        # finding C06-resume-again-on-same-object
-        {"fmt": "2a", "ops": [["start"], ["ins", 41], ["suspend"], ["resume", [[41]]], ["suspend"], ["resume", [[41]]]],
-         "twin": None},
+        # repaired by /repo 8028393 (was finding C06-resume-again-on-same-object): the same object resumes a token again
+        {"fmt": "2a", "ops": [["start"], ["ins", 41], ["suspend"], ["resume", [[41]]], ["suspend"], ["resume", [[41]]],
+                              ["ins", 42], ["commit"]],
+         "twin": [["start"], ["ins", 41], ["ins", 42], ["commit"]], "tail": 1, "twin_kind": "suspend/resume"},
         {"fmt": "2a", "ops": [["start"], ["ins", 41], ["suspend"], ["start"], ["ins", 42], ["suspend"], ["resume", [[42]]],
-                              ["suspend"], ["resume", [[41], [42]]]], "twin": None},
+                              ["suspend"], ["resume", [[41], [42]]], ["commit"]], "twin": None},
+        {"fmt": k, "ops": [["start"], ["ins", 41], ["suspend"], ["resume", [[41]]], ["abort"], ["resume", [[41]]],
+                           ["start"], ["ins", 42], ["commit"]], "twin": None},
         # faulting abort (delete of the new pack fails), with and without suppress_errors: nothing stays visible,
         # the object starts its next group
         {"fmt": k, "ops": [["start"], ["ins", 41], ["ins", 42], ["abortf", True], ["start"], ["ins", 51], ["commit"]],
